@@ -106,10 +106,31 @@ fn check_state(m: &mut Monitor, case: u64, mc: &ModelCase, ss: &StateSpec, seed:
     let lowdens = (1e-1 / ss.eta_frac).max(1.0) * if mc.family.ends_with("functional") { 10.0 } else { 1.0 };
     let dilute = (1e-2 / xmin).max(1.0);
     let chk = |m: &mut Monitor, name: &str, terms: Vec<f64>, tol: f64| {
+        // the Helmholtz energy of the state is finite (checked above); a NaN in one of its
+        // derivatives is a failure of its own (iterative association solvers, findings F26 / F36),
+        // reported once per family instead of as an infinite deviation of every identity
+        if terms.iter().any(|t| !t.is_finite()) {
+            m.check_bool("identities:terms finite", &format!("{fam}|non-finite derivative in an identity"), case, false, det(name, terms.clone()));
+            return;
+        }
         let sig = format!("{fam}|{name}");
         m.check(name, &sig, case, rel(&terms), tol * lowdens, det(name, terms.clone()));
     };
 
+    {
+        // A is finite; are its derivatives?
+        let r = Contributions::Residual;
+        let all_finite = st.pressure(r).to_reduced().is_finite()
+            && st.residual_chemical_potential().to_reduced().iter().all(|x| x.is_finite())
+            && st.dp_dv(r).to_reduced().is_finite()
+            && st.dp_dni(r).to_reduced().iter().all(|x| x.is_finite())
+            && st.dmu_dni(r).to_reduced().iter().all(|x| x.is_finite())
+            && st.residual_entropy().to_reduced().is_finite();
+        if !all_finite {
+            m.check_bool("identities:terms finite", &format!("{fam}|non-finite derivative in an identity"), case, false, det("derivatives of a finite A_res", vec![a]));
+            return;
+        }
+    }
     let p = st.pressure(Contributions::Residual).to_reduced();
     let mu = st.residual_chemical_potential().to_reduced();
     // Euler: A + pV - sum mu_i N_i = 0
@@ -167,7 +188,7 @@ fn check_state(m: &mut Monitor, case: u64, mc: &ModelCase, ss: &StateSpec, seed:
             // ln phi is O(1) per unit change of composition
             let a_: f64 = terms.iter().map(|x| x.abs()).sum::<f64>().max(1.0);
             let sig = format!("{fam}|gd:sum N dlnphi/dN");
-            m.check("gd:sum_i N_i dlnphi_i/dN_j=0", &sig, case, s.abs() / a_, 1e-8 * lowdens, det("gd lnphi", terms.clone()));
+            m.check("gd:sum_i N_i dlnphi_i/dN_j=0", &sig, case, s.abs() / a_, 1e-7 * lowdens, det("gd lnphi", terms.clone()));
         }
         // partial molar volume
         let vi = st.partial_molar_volume().to_reduced();
